@@ -9,8 +9,8 @@ from .. import gen, l1, translate
 THEOREMS = [("Sylvia.Thm.C13", "C13." + t) for t in
             ["methods_intact", "item_rest_intact", "item_attrs", "method_attrs", "no_framework_left",
              "helper_params_intact", "handler_params", "strip_idempotent"]] + \
-           [("Sylvia.Thm.Obl.Tables", "Obl.extraction_complete"), ("Sylvia.Thm.Obl.Tables", "Obl.svAttributes_documented"),
-            ("Sylvia.Thm.Obl.Tables", "Obl.msg_is_framework")]
+           [("Sylvia.Thm.Obl.Complete.C13", "Obl.extraction_complete_C13"), ("Sylvia.Thm.Obl.T.svAttributes_documented", "Obl.svAttributes_documented"),
+            ("Sylvia.Thm.Obl.T.msg_is_framework", "Obl.msg_is_framework")]
 
 FOREIGN_ITEM = ["allow(dead_code)", "cfg(all())", 'doc = " Contract docs, with `code`."', "rustfmt::skip",
                 "allow(clippy::too_many_arguments)", "cfg_attr(all(), allow(unused))", "svx::msg(exec)", "sv::unknown_thing(1)"]
@@ -144,7 +144,7 @@ def run(ctx):
                         "the lint attribute `#[allow(clippy::new_without_default)]` the contract macro adds in front of the impl is not a change of the input",
                         "determinism of the real expander is observed (2 expansions in-process + 1 in a second process per program), not proved"]
     translate.regenerate()
-    c.prove(ctx, ["Sylvia.Thm.C13", "Sylvia.Thm.Obl.Tables"], THEOREMS)
+    c.prove(ctx, ["Sylvia.Thm.C13"], THEOREMS)
 
     n = ctx.size(600, 30000)
     items = [gen_item(ctx.rng, i) for i in range(n)]
